@@ -992,7 +992,7 @@ class HfProtocol(utils.EventEmitter):
                 enabled = int(response.parameters[1]) != 0
                 logger.info(f"  - {indicator.name}: {enabled}")
                 if indicator in self.hf_indicators:
-                    self.hf_indicators[indicator].enabled = True
+                    self.hf_indicators[indicator].enabled = enabled
 
         logger.info("SLC setup completed")
         self._slc_initialized = True
